@@ -105,6 +105,20 @@ fn gen_case(prop: &str, scen: &str, seed: u64) -> Case {
                 if r_f.pct(35) {
                     case.set("bias_k", r_in.range(1, len as u64 + 8) as i64);
                 }
+                if r_f.pct(8) {
+                    // the input fills the encoder's window buffer exactly (or misses it by a few
+                    // bytes) and matches earlier data up to its last byte: the word-wise and the
+                    // byte-wise match extension meet the physical end of the buffer here
+                    case.opt.dict = *r_opt.pick(&[4096u32, 4096, 4097, 8192]);
+                    case.opt.preset = None;
+                    case.opt.unit = None;
+                    case.opt.filters.clear();
+                    case.knobs.remove("bias_k");
+                    let l = (window_buffer_size(&case) as i64 + *r_in.pick(&[0i64, 0, 0, 0, -1, 1, -8, 64])) as usize;
+                    case.input = simcore::case::InputSpec::new(*r_in.pick(&["periodic", "periodic", "zero", "const", "text"]), l, r_in.next_u64());
+                    case.input.p1 = *r_in.pick(&[1u64, 3, 7, 64, 777, 1000]);
+                    case.set("io_step", 1 << 30);
+                }
             } else {
                 match r_f.below(5) {
                     0 => {}
@@ -137,6 +151,21 @@ fn gen_case(prop: &str, scen: &str, seed: u64) -> Case {
         }
     }
     case
+}
+
+/// Size of the encoder's window buffer for these options (see scen/oob.rs): an input of exactly
+/// this length, finished right away, is the one shape in which the encoder looks at the very
+/// last byte of the allocation.
+fn window_buffer_size(case: &Case) -> usize {
+    let dict = if case.fmt == "lzip" { case.opt.dict.clamp(4096, 512 << 20) } else { case.opt.dict } as usize;
+    let fast = case.opt.mode == 0;
+    let mut extra_before = if fast { 1 } else { 4096 };
+    if case.fmt == "lzma2" || case.fmt == "xz" {
+        extra_before = extra_before.max((65536usize).saturating_sub(dict));
+    }
+    let extra_after = if fast { 272 } else { 4096 };
+    let reserve = (dict / 2 + (256 << 10)).min(512 << 20);
+    extra_before + dict + extra_after + 273 + reserve
 }
 
 fn pieces(seed: u64, len: usize) -> Vec<usize> {
